@@ -18,7 +18,7 @@ MANIFEST = dict(
     text='Bounded model checking of the lazily flushed argument list as a state machine: every operation sequence up to the bound with symbolic argument identity, against '
          'the eager semantics, plus one inductive step (laziness is transparent from any lazy state), which lifts the bounded result to arbitrary interleavings of reads.',
     note='Trusted: symx engine, z3, the 30-line eager reference. Bounds: sequences of <=3 (quick) / <=4 (thorough) operations with batches of 1-2 arguments; lazy states with <=2 '
-         'elements per part. Outside: extend_preserving_lflags, to_native.')
+         'elements per part. Also append_direct / extend_direct / extend_preserving_lflags with absolute paths. Outside: to_native.')
 
 CA = Dedup = arglist = None
 
